@@ -1,6 +1,8 @@
 package checks
 
 import (
+	"fmt"
+
 	"verif/drv"
 	"verif/eng"
 	"verif/ev"
@@ -54,6 +56,8 @@ func faultCases() []eng.FaultCase {
 		w("drop-collection", m.Op{K: "dropColl", Coll: "a"}),
 		w("create-index", m.Op{K: "createIndex", Coll: "a", Field: "y"}),
 		w("drop-index", m.Op{K: "dropIndex", Coll: "a", Field: "x"}),
+		{Name: "insert-batch-700", Op: ins("a", manyDocs(700)...), OnlyPre: "3-docs+index-x"},
+		{Name: "insert-batch-1300", Op: ins("a", manyDocs(1300)...), OnlyPre: "3-docs"},
 		w("import-collection", m.Op{K: "import", Coll: "imp", Text: importFile, Docs: []m.Doc{doc(eng.ID(7), "x", float64(1)), doc(eng.ID(8), "x", float64(2))}}),
 		w("create-collection-by-query", m.Op{K: "createByQuery", Coll: "cq", Q: qOn("a", x1)}),
 		r("find-all", m.Op{K: "findAll", Q: qOn("a", x1)}),
@@ -72,10 +76,62 @@ func faultCases() []eng.FaultCase {
 	}
 }
 
+// bigBatchInvalid: an offending document (duplicate inside the batch, duplicate of a stored id, malformed id) at the
+// middle or the end of a batch of several hundred to several thousand documents: error, nothing changed.
+func bigBatchInvalid(run *ev.Run) {
+	for _, b := range []string{drv.BBolt, drv.Badger} {
+		in := drv.MustOpen(b)
+		for _, idx := range []bool{false, true} {
+			for _, n := range []int{150, 600, 1300, 2500} {
+				for _, where := range []string{"last", "middle"} {
+					for _, kind := range []string{"dup-in-batch", "dup-stored", "malformed"} {
+						in.Fresh(nil)
+						model := m.NewDB()
+						setup := []m.Op{{K: "createColl", Coll: "a"}, ins("a", doc(u1, "x", int64(1)))}
+						if idx {
+							setup = append(setup, m.Op{K: "createIndex", Coll: "a", Field: "x"})
+						}
+						for _, o := range setup {
+							_, model, _ = drv.Step(in, model, o)
+						}
+						docs := manyDocs(n)
+						pos := n - 1
+						if where == "middle" {
+							pos = n / 2
+						}
+						switch kind {
+						case "dup-in-batch":
+							docs[pos] = doc(docs[0]["_id"].(string), "x", int64(99))
+						case "dup-stored":
+							docs[pos] = doc(u1, "x", int64(99))
+						case "malformed":
+							docs[pos] = m.Doc{"_id": "not-a-uuid", "x": int64(99)}
+						}
+						before := drv.CanonState(in.Dump())
+						res, _, fs := drv.Step(in, model, ins("a", docs...))
+						run.Add("big_batch_cases", 1)
+						name := fmt.Sprintf("%s|%s|indexed=%v|%s", b, kind, idx, where)
+						w := map[string]interface{}{"engine": "bigbatch", "backend": b, "batch": n, "offending": kind, "position": pos, "indexed": idx}
+						for _, f := range fs {
+							run.Violation("big-batch-"+f.Tag+"|"+name, fmt.Sprintf("[%s] batch of %d documents, %s at position %d: %s", b, n, kind, pos, f.Msg), w)
+						}
+						if res.Panic == nil && res.Leak == "" && res.Err != nil && drv.CanonState(in.Dump()) != before {
+							run.Violation("big-batch-changed-state|"+name, fmt.Sprintf("[%s] Insert of %d documents with a %s document at position %d returned %v but changed the database", b, n, kind, pos, res.Err), w)
+						}
+						in.V.ForgetLeaks()
+					}
+				}
+			}
+		}
+		in.Close()
+	}
+}
+
 func init() {
 	register("C04", "fault_enumeration", func(run *ev.Run, tier string) string {
 		tags := own("panic", "leak", "fault-swallowed", "fault-changed-state", "after-fault", "setup", "error-changed-state")
 		eng.FaultEnum(run, []string{drv.BBolt, drv.Badger}, faultPres(tier), faultCases(), tags)
+		bigBatchInvalid(run)
 		// invalid input: every erroring transition of the id / name / index alphabets must leave the state unchanged
 		fe, fp := run.Get("evaluations"), run.DistinctCount("fault_positions")
 		runSS(run, tier, []string{"ids", "names3", "indexes"}, []string{drv.BBolt, drv.Badger}, "", own("error-changed-state", "leak"), nil)
@@ -83,6 +139,6 @@ func init() {
 		run.Set("distinct_nontrivial", fp)
 		run.Set("evaluations", fe+run.Get("transitions"))
 		run.Assume("failures are injected into the six kinds of store call the property names (begin, get, set, delete, cursor item read, commit); a failing commit rolls the real transaction back")
-		return "for every backend x pre-state (empty collection; 3 documents; 3 documents + index; 2 collections; thorough: 30 documents + 2 indexes) x operation (19 write/catalog operations incl. windowed and sorted bulk writes, ImportCollection, CreateCollectionByQuery; 13 reads): a dry run counts the store calls that can fail, then for EVERY position k the pre-state is restored and the operation re-run with call k failing: an error must be returned, the raw database content must equal the pre-state, no transaction or cursor may stay open, and re-running the operation without a fault must behave exactly as the reference model says; plus every erroring transition (duplicate/malformed ids at every batch position, invalid updates, missing/existing collections, indexes, documents) of the ids/names3/indexes state spaces must leave the raw state unchanged; distinct = fault positions actually reached"
+		return "for every backend x pre-state (empty collection; 3 documents; 3 documents + index; 2 collections; thorough: 30 documents + 2 indexes) x operation (21 write/catalog operations incl. batch inserts of 700 and 1300 documents (fault positions thinned to the first 40, last 40 and every 53rd), windowed and sorted bulk writes, ImportCollection, CreateCollectionByQuery; 13 reads): a dry run counts the store calls that can fail, then for EVERY position k the pre-state is restored and the operation re-run with call k failing: an error must be returned, the raw database content must equal the pre-state, no transaction or cursor may stay open, and re-running the operation without a fault must behave exactly as the reference model says; plus 192 large-batch cases (150-2500 documents, offending document in the middle / at the end: duplicate inside the batch, duplicate of a stored id, malformed id); plus every erroring transition (duplicate/malformed ids at every batch position, invalid updates, missing/existing collections, indexes, documents) of the ids/names3/indexes state spaces must leave the raw state unchanged; distinct = fault positions actually reached"
 	})
 }
